@@ -48,19 +48,8 @@ CLAIMED = {
         technique="Lean 4 proof over operator-algebra model + translator tie + exact differential correspondence of expression trees",
         design="DESIGN.md §3 C03, §9"),
     "C11": dict(
-        text="Lean 4 theorems (Mathlib, real inner-product spaces / R, C): each prox formula the translator extracts from "
-             "prox.py / thresh.py (Gen/Prox.lean: soft threshold kernel, L1Reg threshold lamda*alpha, clip, l2 mask formula, "
-             "linf = y - soft, L2Reg closed form with bias and inner prox, Conj's Moreau formula, UnitaryTransform, Stack) is the "
-             "unique minimiser of 1/2||x-y||^2 + alpha g(x) in the strong form F p + 1/2||p-y||^2 + 1/2||x-p||^2 <= F x + 1/2||x-y||^2 "
-             "(so minimal and unique), for real and complex data, incl. ball boundaries and bias; projections fix feasible points and "
-             "are idempotent; l1-ball projection under the KKT certificate (theta >= 0, sum(|y_i|-theta)_+ = eps), which the "
-             "correspondence verifies exactly for every case of Duchi's search; every nesting returns the input's shape. Tie: "
-             "Gen/Prox.lean regenerated each run + correspondence of the real Prox classes/thresh functions with the exact "
-             "Gaussian-rational model (exactly representable inputs, 1e-12; Fraction object arrays by equality).",
-        note="Trusted: Lean kernel; translator gen_c11 (symbolic execution of straight-line _prox bodies and numba kernels); numpy "
-             "elementwise evaluation / sort / cumsum / norm / split-vec plumbing tied by correspondence; Duchi's index search is "
-             "certified per case by the exact KKT test, not proved in general; psd_proj's spectral theorem is NOT proved (PsdProj is "
-             "decided by the search oracle's normal-cone certificate only); IEEE rounding not modelled.",
+        text="Lean 4 theorems (Mathlib, real inner-product spaces / R, C): each prox formula the translator extracts from prox.py / thresh.py (Gen/Prox.lean: soft threshold kernel, L1Reg threshold lamda*alpha, clip, l2 mask formula, linf = y - soft, L2Reg closed form with bias and inner prox, Conj's Moreau formula, UnitaryTransform, Stack) is the unique minimiser of 1/2||x-y||^2 + alpha g(x) in the strong form F p + 1/2||p-y||^2 + 1/2||x-p||^2 <= F x + 1/2||x-y||^2 (so minimal and unique), for real and complex data, incl. ball boundaries and bias; projections fix feasible points and are idempotent; l1-ball projection under the KKT certificate (theta >= 0, sum(|y_i|-theta)_+ = eps), which the correspondence verifies exactly for every case of Duchi's search; every nesting returns the input's shape. Tie: Gen/Prox.lean regenerated each run + correspondence of the real Prox classes/thresh functions with the exact Gaussian-rational model (exactly representable inputs, 1e-12; Fraction object arrays by equality). thresh.psd_proj: its body is translator-generated (Gen/Prox.lean psdProjWith over the PsdOps record: Hermitian part, eigh as a parameter, eigenvalue clamp, V diag(w) V^H) and proved (psd_proj_prox, any RCLike field) to be the Frobenius projection onto the PSD cone of an arbitrary square input under the spectral contract of eigh (V^H V = I, V diag(w) V^H = A, w real), via psd_proj_spectral (P PSD, H-P NSD, (H-P)P = 0, Re<H-P,Q-P> <= 0) and psd_proj_skew; Duchi's sort/cumsum index search is proved to return a KKT threshold (duchi_theta over the generated l1projSt/l1projCond; l1_proj_duchi_real/complex: soft_thresh(st[idx], y) is the l1-ball projection; duchiTheta_kkt for the executable model).",
+        note="Trusted: Lean kernel; translator gen_c11 (symbolic execution of straight-line _prox bodies and numba kernels; array-level extraction of psd_proj over PsdOps); numpy elementwise evaluation / sort / cumsum / flatnonzero.max / norm / split-vec plumbing tied by correspondence (hypotheses of l1_proj_duchi_*: sort(..)[::-1] is a non-increasing arrangement, cumsum the partial sums); numpy.linalg.eigh's spectral contract (hypothesis of psd_proj_prox; checked numerically on every run incl. repeated eigenvalues) and the meaning of +, conj, .T, /k, @, broadcasting *, masked assignment fixed by the PsdOps instances (Mathlib matrices vs exact arrays, compared with the real code on exact spectral data); IEEE rounding not modelled.",
         technique="Lean 4 proof over translator-generated prox formulas + exact-rational differential correspondence",
         design="DESIGN.md §3 C11, §9"),
     "C01": dict(
@@ -95,18 +84,24 @@ CLAIMED = {
         technique="Lean 4 proof (normal = adjoint composed with operator; block cover counts) + exact differential correspondence",
         design="DESIGN.md §3 C04, §9"),
     "C19": dict(
-        text="Lean 4 theorems over C: su2_step_norm (the Cayley-Klein update multiplies |a|^2+|b|^2 by |av|^2+|bv|^2), each "
-             "simulator's step (abrm, abrm_nd, abrm_hp, abrm_ptx, optcont.blochsim) reduces to it and the code's parameter formulas "
-             "satisfy the unit constraints (cos^2+sin^2 = 1, unit axis), hence sim_unitary_* by induction for EVERY waveform length; "
-             "zero_rf_* (beta stays 0, |alpha| = 1); sim_append / sim_compose_* (simulating w1 ++ w2 is the SU(2) product, with the "
-             "explicit frame factor for abrm_hp); peel_* (one step of ab2rf's inverse-SLR peeling keeps the norm and zeroes the "
-             "leading/trailing coefficient). Tie: real simulators vs the exact Gaussian-rational fold of the float-derived "
-             "parameters (1e-12), ab2rf vs the model's exact (c_j, s_j) on Pythagorean pairs.",
-        note="Trusted: Lean kernel; hand-written step maps tied by correspondence (no translator for sim.py); NOT proved: full "
-             "ab2rf_inverts_forward on coefficient lists (one peel step only), blochsim composition (oracle only), b2a / mag2mp / "
-             "dzrf (numerical filter design and spectral factorisation: round-trip oracle only, 1e-6 on exact pairs, 1e-3 through "
-             "b2a); float rounding (the code's +eps) not modelled.",
-        technique="Lean 4 proof (SU(2) norm identity + induction over waveform) + differential correspondence + round-trip oracle",
+        text="Lean 4 theorems over C about definitions the translator regenerates on every run from mri/rf/sim.py, optcont.py and "
+             "slr.py (Gen/Sim.lean: per-simulator step maps, parameter formulas av/bv/alpha/beta with cos/sin of ONE half angle as "
+             "atoms, final rephasing, abrm's balanced block, abrm_ptx's output map, the whole-simulation folds, the exponents of the "
+             "gradient phases, ab2rf's sj / peel / slices): su2_step_norm; ck/nd/hp/bs/ptxParams_valid (the source's formulas satisfy "
+             "|av|^2+|bv|^2 = 1 under the atom constraints); gen_unitary_{abrm,abrm_nd,abrm_hp,blochsim,abrm_ptx} (|alpha|^2+|beta|^2 "
+             "= 1 for EVERY waveform length), gen_zero_rf_* (beta stays 0, |alpha| = 1), gen_compose_* and "
+             "gen_compose_abrm_hp_code / gen_compose_blochsim_code (simulating w1 ++ w2 is the SU(2) product, with the code's own "
+             "final rephasing: hp/bs_frame_exponents, zf^2 prod z = 1 proved from the source's exponents), abrm_balanced_norm; "
+             "ab2rf_inverts_forward and ab2rf_inverts_forward_code (for every pulse length, peeling the polynomial pair built by the "
+             "forward SLR recursion returns the pulses exactly, with the code's own c_j formula). Tie: translator (fail-closed) + real "
+             "simulators vs the exact Gaussian-rational run of the generated simulation on per-sample atoms (1e-12), ab2rf vs exact "
+             "(c_j, s_j) on Pythagorean pairs.",
+        note="Trusted: Lean kernel; translator gen_c19; the atom-defining statements (om, phi, n, normfact) are only checked not to "
+             "read the state - their content and the unit-axis hypothesis nx^2+ny^2+nz^2 = 1 are tied by the correspondence (the "
+             "code's +eps makes it inexact anyway); NOT proved: that the forward recursion is the polynomial hard-pulse simulation "
+             "evaluates on the unit circle (round-trip oracle), b2a / mag2mp / dzrf (numerical: round-trip oracle only, 1e-6 on exact "
+             "pairs, 1e-3 through b2a), blochsim's n-D x @ g read as 1-D; float rounding not modelled.",
+        technique="Lean 4 proof (SU(2) norm identity, induction over waveform, inverse-SLR peeling) over translator-generated simulators",
         design="DESIGN.md §3 C19, §9"),
     "C20": dict(
         text="Lean 4 theorems over R about the formulas the translator extracts from trap_grad / min_trap_grad (Gen/TrapGrad.lean: "
@@ -231,22 +226,32 @@ CLAIMED = {
         technique="Lean 4 proof (sound no-mutation analysis, kernel-evaluated per function on translator-generated IR) + runtime validation",
         design="DESIGN.md §3 C02, §9"),
     "C12": dict(
-        text="Lean 4 theorems about a line-by-line transcription of ConjugateGradient (init/update/done/run generic over a record of "
-             "vector-space operations; executed over Gaussian rationals by the driver, reasoned about in an RCLike inner-product "
-             "space) for Hermitian positive-definite A and optional Hermitian PD preconditioner P, by induction on the number of "
-             "updates: cg_residual (r_k = b - A x_k while residual updates are performed), cg_orth / cg_conj (full orthogonality and "
-             "conjugacy), cg_krylov / cg_krylov_eq (x_k - x_0 in K_k(PA, P r_0), directions span it), cg_optimal and cg_optimal_last "
-             "(A-norm optimal over x_0 + K_k, incl. the final iterate where the code skips the residual update), cg_monotone, "
-             "cg_finite (r_n = 0 in dimension n), cg_breakdown / npd_sticky / cg_breakdown_converged (pAp <= 0: state unchanged, flag "
-             "set and sticky, done), cg_early_stop_fixed, alias_branch_unreachable (p aliasing z when max_iter = 1 is unobservable), "
-             "cg_x_maxiter_irrelevant, cg_real_inner, resid2_eq_rzold, iter_counts_updates. Tie: the REAL class executed over exact "
-             "Gaussian rationals (dtype=object arrays of an exact scalar class) and compared field by field as equal fractions with "
-             "the Lean driver after __init__ and after every update (PD / singular / indefinite matrices, n = 1..8, with and without "
-             "P, A as Linop and as function, max_iter in {0,1,2,n,n+1,n+2}), plus a float run at 1e-9.",
-        note="Trusted: Lean kernel; hand transcription of the class tied by the exact correspondence (no translator for the update "
-             "body); IEEE rounding not modelled (float Krylov-optimality demanded at 1e-4 for P none/diagonal only; dense P in float "
-             "drifts up to 5e-4 and is judged on the exact run).",
-        technique="Lean 4 proof (CG invariants and Krylov optimality by induction) + exact-rational execution of the real class",
+        text="Lean 4 theorems about the ConjugateGradient machine init/update_/update/done that the translator "
+             "(harness/translate/gen_c12.py, a statement-by-statement symbolic execution of "
+             "ConjugateGradient.__init__/_update/_done, Alg.__init__ through super().__init__ and Alg.update: every assignment one "
+             "`let`, every `if` one `if`/`match`, arrays tracked as objects so in-place updates and shared names are exact) "
+             "regenerates into Gen/C12.lean on every run, generic over a record of vector-space operations (Model/C12Base.lean; "
+             "executed over Gaussian rationals by the driver, reasoned about in an RCLike inner-product space); Model/C12.lean's "
+             "definitions ARE the generated ones (model_is_generated, rfl). For Hermitian positive-definite A and optional Hermitian "
+             "PD preconditioner P, by induction on the number of updates: cg_residual (r_k = b - A x_k while residual updates are "
+             "performed), cg_orth / cg_conj (full orthogonality and conjugacy), cg_krylov / cg_krylov_eq (x_k - x_0 in K_k(PA, P "
+             "r_0), directions span it), cg_optimal and cg_optimal_last (A-norm optimal over x_0 + K_k, incl. the final iterate "
+             "where the code skips the residual update), cg_monotone, cg_finite (r_n = 0 in dimension n), cg_breakdown / npd_sticky "
+             "/ cg_breakdown_converged (pAp <= 0: state unchanged, flag set and sticky, done), cg_early_stop_fixed, "
+             "alias_branch_unreachable (whenever self.p is or may be the array self.r - no private copy, max_iter <= 1 - the "
+             "generated condition under which _update updates r or p in place is false), x_is_callers_array (self.x is the caller's "
+             "array and is never rebound), cg_x_maxiter_irrelevant, cg_real_inner, resid2_eq_rzold, iter_counts_updates, update_eq. "
+             "Tie: translator (any statement, operator, comparison, call or attribute outside the subset is a broken obligation) + "
+             "the REAL class executed over exact Gaussian rationals (dtype=object arrays of an exact scalar class) and compared "
+             "field by field as equal fractions with the Lean driver after __init__ and after every update (PD / singular / "
+             "indefinite matrices, n = 1..8, with and without P, A as Linop and as function, max_iter in {0,1,2,n,n+1,n+2}), plus a "
+             "float run at 1e-9.",
+        note="Trusted: Lean kernel; translator gen_c12 (python ast -> Lean; its reading of util.axpy / util.xpay / xp.real(xp.vdot) "
+             "/ .copy() / .item() as the Ops record's operations and of numpy arrays as objects is validated by the exact "
+             "correspondence, not proved); the driver's division-by-zero pre-check is hand-written (tied by the correspondence); "
+             "IEEE rounding not modelled (float Krylov-optimality demanded at 1e-4 for P none/diagonal only; dense P in float drifts "
+             "up to 5e-4 and is judged on the exact run).",
+        technique="Lean 4 proof (CG invariants and Krylov optimality by induction) about translator-generated definitions + exact-rational execution of the real class",
         design="DESIGN.md §3 C12, §9"),
     "C13": dict(
         text="Lean 4 theorems about the update formulas the translator extracts from GradientMethod._update and "
